@@ -116,6 +116,37 @@ def run(rep):
                                   % (cfg, lh, lw, tuple(yn.shape), tuple(ys.shape)), case)
                 else:
                     n_ok += 1
+    # ---- call history: filter sets that a cache keyed on too little would confuse - the row/column-swapped set, another set
+    # with rows = columns given in the 4-filter form, another set of the same lengths - used one after the other
+    n_hist = 0
+    for mode in MODES4:
+        for L in (2, 4):
+            c = (dwtlib.int_taps(rng, L, 4), dwtlib.int_taps(rng, L, 4))
+            r = (dwtlib.int_taps(rng, L, 4), dwtlib.int_taps(rng, L, 4))
+            d = (dwtlib.int_taps(rng, L, 4), dwtlib.int_taps(rng, L, 4))
+            seqs = [[(c[0], c[1], r[0], r[1]), (r[0], r[1], c[0], c[1])], [(c[0], c[1], c[0], c[1]), (d[0], d[1], d[0], d[1])],
+                    [(c[0], c[1]), (d[0], d[1])], [(c[0], c[1], r[0], r[1]), (d[0], d[1], r[0], r[1])]]
+            X = torch.tensor(rng.integers(-5, 6, size=(2, 2, 8, 6)).astype(np.float64))
+            for si, seq in enumerate(seqs):
+                for k, f in enumerate(seq):
+                    cfg = dict(mode=mode, L=L, form=len(f), position_in_sequence=k + 1)
+                    rep.validated()
+                    rep.nontriv(("nonsep_history", mode, L, len(f), k, si))
+                    n_hist += 1
+                    try:
+                        a = ll.afb2d(X, f, mode=mode)
+                        b = ll.afb2d_nonsep(X, f, mode=mode)
+                        co = torch.tensor(rng.integers(-5, 6, size=(2, 2, 4, b.shape[-2], b.shape[-1])).astype(np.float64))
+                        ys = ll.sfb2d(co[:, :, 0], co[:, :, 1], co[:, :, 2], co[:, :, 3], f, mode=mode)
+                        yn = ll.sfb2d_nonsep(co, f, mode=mode)
+                        same = a.shape == b.shape and torch.equal(a, b) and ys.shape == yn.shape and torch.equal(ys, yn)
+                    except Exception as e:   # noqa
+                        same = False
+                    if not same:
+                        rep.violation("the non-separable bank differs from the separable one when the filter set is used AFTER another set in the same "
+                                      "process (swapped rows/columns, rows = columns, same lengths) at %s" % (cfg,),
+                                      {"api": "afb2d_nonsep", "check": "nonsep_history", "cfg": cfg, "filters": [t.tolist() for t in f]})
+    rep.count("history_cases", n_hist)
     rep.count("pairs_equal", n_ok)
     rep.count("pairs_raising_together", n_raise)
     from .. import scalechecks
